@@ -376,7 +376,10 @@ def _preset_case(arg):
     from grid.atomgrid import AtomGrid
     from grid.onedgrid import UniformInteger
     from grid.rtransform import PowerRTransform
-    from grid.utils import _DEFAULT_POWER_RTRANSFORM_PARAMS
+    try:
+        from grid.utils import _DEFAULT_POWER_RTRANSFORM_PARAMS
+    except ImportError:      # (the table of default radial grids is data; without it the default-rgrid builds are skipped)
+        _DEFAULT_POWER_RTRANSFORM_PARAMS = {}
 
     res = WorkerResult(section=f"preset:{preset}")
     tab = preset_tables(preset)
